@@ -67,7 +67,7 @@ PROPS["C14"] = dict(
 PROPS["C06"] = dict(
     lean_targets=["Chihaya.Props.C06"],
     props_files=["Chihaya/Props/C06.lean"],
-    streams=[dict(name="C06", quick=30000, thorough=800000)],
+    streams=[dict(name="C06", quick=30000, thorough=800000), dict(name="C13", quick=2000, thorough=60000)],
     rule="cases: real frontend/http ParseAnnounce/ParseScrape on (a) URIs rendered from field records with shuffled parameters, per-byte escaping "
          "choices (literal / %XX either case / +), duplicated keys, unrelated and non-ASCII keys, ';' separators, (b) every numeric field at each "
          "boundary literal, (c) the source-address grid remote x spoof x ip/ipv4/ipv6 x header, (d) raw byte soup; option sets vary (numwant caps, scrape cap, "
@@ -86,7 +86,7 @@ UDP_TRUST = ["overlay shims (build tag verif): harness/shims/frontend/udp (non-s
 PROPS["C07"] = dict(
     lean_targets=["Chihaya.Props.C07"],
     props_files=["Chihaya/Props/C07.lean"],
-    streams=[dict(name="C07", quick=25000, thorough=800000)],
+    streams=[dict(name="C07", quick=25000, thorough=800000), dict(name="C09T", quick=1500, thorough=40000)],
     rule="cases: real udp handleRequest (spy logic, pinned clock, valid connection IDs) on packets built by a BEP 15/41 client builder (both announce actions, all "
          "event codes, option segmentations with NOPs/EndOfOptions), every length around each threshold for every action, every option type byte, URLData "
          "length bytes against the packet end, bit flips / truncations of valid packets, scrapes with repeats and caps, garbage; compared: silence / "
@@ -120,7 +120,7 @@ PROPS["C10"] = dict(
 PROPS["C11"] = dict(
     lean_targets=["Chihaya.Props.C11"],
     props_files=["Chihaya/Props/C11.lean"],
-    streams=[dict(name="C11U", quick=2000, thorough=100000), dict(name="C11H", quick=4000, thorough=200000)],
+    streams=[dict(name="C11U", quick=2000, thorough=100000), dict(name="C11H", quick=4000, thorough=200000), dict(name="C03T", quick=2000, thorough=60000)],
     rule="cases: product grid source address (v4, v6, v4-mapped, malformed) x client-supplied address (absent, zero, same family, other family, unparsable; "
          "HTTP: ip/ipv4/ipv6 in every combination and order; UDP: the 4/16-byte packet field for actions 1/4) x allow_ip_spoofing x real-ip header, plus random "
          "requests; compared: the address, family and ip-provided flag of the request handed to the logic; non-trivial = accepted requests (model tag), distinct op lines",
@@ -131,7 +131,7 @@ PROPS["C11"] = dict(
 PROPS["C08"] = dict(
     lean_targets=["Chihaya.Props.C08"],
     props_files=["Chihaya/Props/C08.lean"],
-    streams=[dict(name="C08", quick=8000, thorough=250000)],
+    streams=[dict(name="C08", quick=8000, thorough=250000), dict(name="C01T", quick=1500, thorough=40000)],
     rule="cases: real WriteAnnounceResponse / WriteScrapeResponse / WriteError on generated responses (compact and dictionary form, 0..100 IPv4 and 0..50 IPv6 "
          "peers with binary ids and edge ports, counts up to 2^32-1, intervals incl. sub-second, negative and MaxInt64, scrapes with repeated infohashes and "
          "bencode-looking keys, client messages with arbitrary bytes, internal errors carrying secrets); the body is decoded by an independent client library "
@@ -197,7 +197,7 @@ TRK_TRUST = STORE_TRUST + UDP_TRUST + ["overlay shim harness/shims/frontend/http
 PROPS["C12"] = dict(
     lean_targets=["Chihaya.Props.C12"],
     props_files=["Chihaya/Props/C12.lean"],
-    streams=[dict(name="C12", quick=6000, thorough=250000)],
+    streams=[dict(name="C12", quick=6000, thorough=250000), dict(name="C09T", quick=1500, thorough=40000)],
     rule="cases: random chains of 0-6 pre-hooks and 0-4 post-hooks (accepting, rejecting with client / internal errors, setting SkipSwarmInteraction / SkipResponseHook, "
          "mutating the response, tagging the context) through the real middleware.Logic behind the real HTTP router and the real UDP handleRequest, on coherent "
          "announce/scrape histories over a real store (memory or Redis); compared: error class, counts, intervals, number of peers, pre- and post-hook invocation logs, "
